@@ -152,3 +152,85 @@ func mathALU(op string, a, b, c *big.Int) *big.Int {
 	}
 	panic("unknown alu op " + op)
 }
+
+// ---------------------------------------------------------------- declarative gas reference (mirrors coq/EVM/GasSpec.v)
+
+// memCost: C_mem(a) = 3a + floor(a^2/512), a in 32-byte words
+func memCost(words *big.Int) *big.Int {
+	sq := new(big.Int).Mul(words, words)
+	sq.Quo(sq, big.NewInt(512))
+	return sq.Add(sq, new(big.Int).Mul(big.NewInt(3), words))
+}
+
+// expansionCost: price of touching [off, off+size) when memLen bytes are active
+func expansionCost(memLen uint64, off, size *big.Int) *big.Int {
+	if size.Sign() == 0 {
+		return new(big.Int)
+	}
+	old := new(big.Int).SetUint64(memLen / 32)
+	nw := new(big.Int).Add(off, size)
+	nw.Add(nw, big.NewInt(31)).Quo(nw, big.NewInt(32))
+	if nw.Cmp(old) <= 0 {
+		return new(big.Int)
+	}
+	return new(big.Int).Sub(memCost(nw), memCost(old))
+}
+
+func wordsOf(size *big.Int) *big.Int {
+	w := new(big.Int).Add(size, big.NewInt(31))
+	return w.Quo(w, big.NewInt(32))
+}
+
+func bigMax(a, b *big.Int) *big.Int {
+	if a.Cmp(b) >= 0 {
+		return a
+	}
+	return b
+}
+
+// refGas: the Yellow-Paper price of one step of the instructions whose price is not a per-instruction constant and does not
+// depend on account state; st[i] = i-th stack item from the top; ok=false for instructions it does not cover.
+func refGas(op byte, st func(int) *big.Int, memLen uint64, gasBefore uint64) (*big.Int, bool) {
+	exp := func(off, size *big.Int) *big.Int { return expansionCost(memLen, off, size) }
+	add := func(xs ...*big.Int) *big.Int {
+		s := new(big.Int)
+		for _, x := range xs {
+			s.Add(s, x)
+		}
+		return s
+	}
+	k := func(n int64) *big.Int { return big.NewInt(n) }
+	mul := func(a *big.Int, n int64) *big.Int { return new(big.Int).Mul(a, big.NewInt(n)) }
+	switch {
+	case op == 0x51 || op == 0x52: // MLOAD, MSTORE
+		return add(k(3), exp(st(0), k(32))), true
+	case op == 0x53: // MSTORE8
+		return add(k(3), exp(st(0), k(1))), true
+	case op == 0xf3 || op == 0xfd: // RETURN, REVERT
+		return exp(st(0), st(1)), true
+	case op == 0x37 || op == 0x39 || op == 0x3e: // CALLDATACOPY, CODECOPY, RETURNDATACOPY
+		return add(k(3), mul(wordsOf(st(2)), 3), exp(st(0), st(2))), true
+	case op == 0x3c: // EXTCODECOPY
+		return add(k(700), mul(wordsOf(st(3)), 3), exp(st(1), st(3))), true
+	case op == 0x20: // SHA3
+		return add(k(30), mul(wordsOf(st(1)), 6), exp(st(0), st(1))), true
+	case op >= 0xa0 && op <= 0xa4: // LOGn
+		return add(k(375), k(375*int64(op-0xa0)), mul(st(1), 8), exp(st(0), st(1))), true
+	case op == 0xf0: // CREATE
+		return add(k(32000), exp(st(1), st(2))), true
+	case op == 0xf5: // CREATE2
+		return add(k(32000), mul(wordsOf(st(2)), 6), exp(st(1), st(2))), true
+	case op == 0xf4 || op == 0xfa: // DELEGATECALL, STATICCALL: 700 + expansion + min(requested, L(gas - base))
+		base := add(k(700), bigMax(exp(st(2), st(3)), exp(st(4), st(5))))
+		avail := new(big.Int).Sub(new(big.Int).SetUint64(gasBefore), base)
+		if avail.Sign() < 0 {
+			return nil, false // unaffordable: the step fails, nothing to compare
+		}
+		l := new(big.Int).Sub(avail, new(big.Int).Quo(avail, big.NewInt(64)))
+		if st(0).Cmp(l) < 0 {
+			l = st(0)
+		}
+		return add(base, l), true
+	}
+	return nil, false
+}
